@@ -1,6 +1,7 @@
 (* C06 - object source spans and locations are exact.
    Model: Model/Build.v (process_node positions, get_location, pos_to_linecol) on Model/Peg.v trees. *)
-From TxV Require Import Core.Base Model.PegSyntax Model.Peg Model.Build Proofs.BuildProofs Proofs.BuildObjProofs.
+From TxV Require Import Core.Base Model.PegSyntax Model.Peg Model.Spec Model.Build Proofs.BuildProofs Proofs.BuildObjProofs
+     Proofs.SpecProofs Proofs.SpecSepProofs Proofs.SpecWf.
 
 (* get_location: line = 1 + number of newlines before the position, col = distance from the start
    of that line + 1, nchar = end - position; for every input and position inside it. *)
@@ -68,3 +69,75 @@ Example C06_object_span_nonvacuous :
         (NT 0 [T 1 2 3 false; T 1 7 1 false]) None = BOk (VObj [65]%N 2 8 [], None).
 Proof. vm_compute. reflexivity. Qed.
 Print Assumptions C06_object_span_nonvacuous.
+
+(* OBJECT level nesting and list order.  For every grammar table, metamodel table, input, group oracle and
+   option setting: if the node is a well-formed tree and assignment nodes sit where the grammar compiler
+   puts them (children of common-rule nodes; decidable, evaluated per case), the value Build returns for
+   it is [good] for the node's span.  [good lo hi v] is spelled out by the three theorems that follow:
+   every object has a non-empty span inside [lo, hi]; the values of its attributes are good for the
+   object's own span (child slices inside the parent slice, recursively); the objects of one list are
+   ordered and disjoint. *)
+Theorem C06_objects_nested_ordered :
+  forall g mm input grp auto use_grp t top v top' under,
+    wf_tree t = true -> asg_placed mm under t = true ->
+    pnode g mm input grp auto use_grp t top = BOk (v, top') -> good (tpos t) (tend t) v.
+Proof. exact objects_nested_ordered. Qed.
+Print Assumptions C06_objects_nested_ordered.
+
+Theorem C06_good_object_nonempty_inside :
+  forall lo hi c p e attrs, good lo hi (VObj c p e attrs) -> lo <= p /\ p < e /\ e <= hi.
+Proof. exact good_obj_bounds. Qed.
+Print Assumptions C06_good_object_nonempty_inside.
+
+Theorem C06_good_child_inside_parent :
+  forall lo hi c p e attrs a x, good lo hi (VObj c p e attrs) -> In (a, x) attrs -> good p e x.
+Proof. exact good_child. Qed.
+Print Assumptions C06_good_child_inside_parent.
+
+Theorem C06_good_list_ordered_disjoint :
+  forall l1 lo hi c1 p1 e1 a1 l2 c2 p2 e2 a2 l3,
+    good lo hi (VList (l1 ++ VObj c1 p1 e1 a1 :: l2 ++ VObj c2 p2 e2 a2 :: l3)) -> e1 <= p2.
+Proof. exact good_list_order. Qed.
+Print Assumptions C06_good_list_ordered_disjoint.
+
+Example C06_objects_nonvacuous :
+  let mm := [IRule RCommon [77]%N [mkAttr [120]%N MPlus true false [65]%N false];
+             IAsgn [120]%N OpList; IRule RCommon [65]%N []; ITerm [] 0] in
+  let t := NT 0 [NT 1 [NT 2 [T 3 1 2 false]; NT 2 [T 3 5 1 false]]] in
+  wf_tree t = true /\ asg_placed mm false t = true /\
+  pnode (mkGrammar [] 0 None) mm [] (fun _ _ => None) true false t None
+    = BOk (VObj [77]%N 1 6 [([120]%N, VList [VObj [65]%N 1 3 []; VObj [65]%N 5 6 []])], None).
+Proof. vm_compute. repeat split. Qed.
+Print Assumptions C06_objects_nonvacuous.
+
+(* When are the interpreter's trees well formed?  For every grammar table in the class of the C01 refinement
+   theorem (wfg), without separators (nosep) and with EOF only as the second child of the top node (eof_ok;
+   all three decidable), every config, input, fuel and non-empty-match oracle: if the interpreter accepts,
+   its result is the top NonTerminal and the subtree the model is built from (parse_tree[0]) is a wf_tree -
+   so C06_node_span / C06_object_span / C06_objects_nested_ordered apply to it.  Proved on the reference
+   semantics (Proofs/SpecWf.v seval_wf) and transported by C01_refinement_partial.  The boundary is the known
+   findings: a trailing separator (nosep) and an empty literal (excluded by wfg) give trees that are not
+   well formed (C06_wf_boundary_refuted); a suppressed edge match keeps the tree well formed and only
+   breaks span = extent. *)
+Theorem C06_run_wf :
+  forall g pf c orc fuel input r,
+    wfg g pf = true -> nosep g = true -> eof_ok g = true -> orc_pos orc ->
+    run g c orc false fuel input = Parsed r ->
+    exists t rest, r = RTree (NT (g_top g) (t :: rest)) /\ wf_tree t = true.
+Proof. exact run_wf. Qed.
+Print Assumptions C06_run_wf.
+
+Example C06_run_wf_nonvacuous :
+  wfg g_items 24 = true /\ nosep g_items = true /\ eof_ok g_items = true /\
+  accepts (run g_items c_default (orc_of t_items) false 60 in_items) = true.
+Proof. exact run_wf_nonvacuous. Qed.
+Print Assumptions C06_run_wf_nonvacuous.
+
+(* with a separator the hypothesis nosep is necessary: x,b under A: xs+=X[','] keeps the separator it gave
+   back, the subtree of Model is not well formed (children overlap) *)
+Theorem C06_wf_boundary_refuted :
+  exists g c orc fuel input t rest,
+    wfg g 24 = true /\ nosep g = false /\ eof_ok g = true /\
+    run g c orc false fuel input = Parsed (RTree (NT (g_top g) (t :: rest))) /\ wf_tree t = false.
+Proof. exact wf_boundary_refuted. Qed.
+Print Assumptions C06_wf_boundary_refuted.
